@@ -48,6 +48,11 @@ func NewFromBytes(b []byte) *Script {
 func NewFromASM(str string) (*Script, error) {
 	s := Script{}
 
+	if str == "" {
+		// the rendering of the empty script (ToASM gives "" for it)
+		return &s, nil
+	}
+
 	for _, section := range strings.Split(str, " ") {
 		if val, ok := opCodeStrings[section]; ok {
 			_ = s.AppendOpcodes(val)
